@@ -22,7 +22,7 @@ pub fn prop() -> Prop {
 fn spec() -> Spec {
     Spec {
         kinds: vec![
-            Kind { name: "paths", quick: 400, thorough: 10_000, serial: false },
+            Kind { name: "paths", quick: 1_000, thorough: 25_000, serial: false },
             Kind { name: "cancel", quick: 150, thorough: 6_000, serial: false },
         ],
         rule: "paths: synthetic cell (coarse meshes, non-wrapping limits) x collision-free start/goal pairs in the layouts free space / obstacle placed on the straight joint-space line between them / goal within one step of the start / tiny try budget, step sizes 2..12 degrees; every scenario is planned repeatedly (thread_rng cannot be seeded) and each returned path is checked offline: exact endpoints, every node reported free, hops <= 3 steps, nodes within limits, and provenance: every interior node must appear in the spy log as a collision query made by the planner. cancel: flag raised before the call => Err for each of three calls sharing the flag; after an interrupted call a second call sharing the still raised flag => Err; flag raised by the spy at the k-th collision query (k swept) => no sampling event (constraints() call) may follow the raise and the result is Err unless the iteration in progress completed the connection. non-trivial = path with >= 3 nodes (paths) / cancellation that actually interrupted planning (cancel); distinct = hash(path)",
@@ -30,7 +30,7 @@ fn spec() -> Spec {
             "the planner polls the flag once per iteration: 'no sampling after the raise' is the strongest form that is not racy against its own check point",
             "'reported free' is the same robot's collides()",
         ],
-        minimums: vec![("oracle_evals", 5_000, 200_000), ("paths.returned", 300, 12_000), ("paths.nodes_checked", 5_000, 200_000), ("cancel.interrupted", 100, 4_000)],
+        minimums: vec![("oracle_evals", 5_000, 200_000), ("paths.returned", 1_000, 30_000), ("paths.nodes_checked", 15_000, 500_000), ("cancel.interrupted", 100, 4_000)],
     }
 }
 
@@ -209,7 +209,8 @@ fn check_path(mon: &mut Mon, s: &Scene, robot: &KinematicsWithShape, path: &Vec<
 }
 
 fn paths(idx: u64, rng: &mut Rng, mon: &mut Mon, s: &Scene) {
-    let repeats = 4;
+    // (the low-dimensional layout is where an unchecked sample can enter a tree: more plannings there)
+    let repeats = if s.layout == "narrow_limits" { 12 } else { 4 };
     mon.count(&format!("layout.{}", s.layout));
     for _ in 0..repeats {
         let (robot, spy) = build_spied(&s.cell, None);
